@@ -60,6 +60,7 @@ const (
 	kAddSelf      // Add the pool itself
 	kAddPoolChild // Add a cancellable child of the pool
 	kAdvance      // let 15ms of virtual time pass
+	kAddLook      // Add a context that ends itself on its P-th Err()/Done() look (P=1..4); P=0: never fires but yields in every look
 )
 
 type op struct {
@@ -95,17 +96,19 @@ func (o op) String() string {
 		return "P" + h
 	case kAddPoolChild:
 		return "Q" + h
+	case kAddLook:
+		return "K" + h + ":" + strconv.Itoa(o.P)
 	}
 	return "T"
 }
 
-var kindNames = [...]string{"cancelmember", "addlive", "addended", "cancel", "size", "addnever", "adddeadline", "addchild", "adddup", "addself", "addpoolchild", "advance"}
+var kindNames = [...]string{"cancelmember", "addlive", "addended", "cancel", "size", "addnever", "adddeadline", "addchild", "adddup", "addself", "addpoolchild", "advance", "addlook"}
 
 func (o op) kind() string { return kindNames[o.K] }
 
 func (o op) isAdd() bool {
 	switch o.K {
-	case kAddLive, kAddEnded, kAddNever, kAddDeadline, kAddChild, kAddDup, kAddSelf, kAddPoolChild:
+	case kAddLive, kAddEnded, kAddNever, kAddDeadline, kAddChild, kAddDup, kAddSelf, kAddPoolChild, kAddLook:
 		return true
 	}
 	return false
@@ -130,12 +133,17 @@ func (o op) ctxKind() byte {
 		return 'P'
 	case kAddPoolChild:
 		return 'Q'
+	case kAddLook:
+		if o.P == 0 {
+			return 's'
+		}
+		return byte('0' + o.P)
 	}
 	return 0
 }
 
-const legend = "initial (one letter per context passed to NewPool) and context kinds: L live cancellable, x already cancelled, B context.Background(), V WithValue(Background), W WithoutCancel(cancelled parent), U custom type with nil Done(), D deadline 10ms ahead, = the previous context again; " +
-	"ops: cN cancel member N, AN Add live ctx (becomes handle N), EN Add ended ctx, NNf Add never-ending ctx of flavour f, DN Add deadline ctx, CN<P Add a child of member P, =N<P Add member P's context again, PN Add the pool itself, QN Add a child of the pool, X Cancel, S Size, T let 15ms of virtual time pass; " +
+const legend = "initial (one letter per context passed to NewPool) and context kinds: L live cancellable, x already cancelled, B context.Background(), V WithValue(Background), W WithoutCancel(cancelled parent), U custom type with nil Done(), D deadline 10ms ahead, = the previous context again, 1..4 a context that ends itself on its 1st..4th Err()/Done() look, s a context whose Err()/Done() yield the processor; " +
+	"ops: cN cancel member N, AN Add live ctx (becomes handle N), EN Add ended ctx, NNf Add never-ending ctx of flavour f, DN Add deadline ctx, CN<P Add a child of member P, =N<P Add member P's context again, PN Add the pool itself, QN Add a child of the pool, KN:k Add a context that ends itself on its k-th look (k=0: slow looks only), X Cancel, S Size, T let 15ms of virtual time pass; " +
 	"after the ops every history ends with the same tail: cancel every context still live in handle order, let 1h pass if there are deadline or never-ending contexts, Size, Add, Size, Cancel, Size, Add, Size; " +
 	"events: stamp what a b (cancel-member a=handle; add-call a=handle b=live; size a=result; parked a=number of operations placed)"
 
@@ -152,6 +160,8 @@ func seqString(seq []op) string {
 
 func cfgString(cfg string) string { return "[" + cfg + "]" }
 
+func isLookKind(k byte) bool { return (k >= '1' && k <= '4') || k == 's' }
+
 func isNeverKind(k byte) bool { return k == 'B' || k == 'V' || k == 'W' || k == 'U' }
 
 // sym is the symbolic state used to enumerate operation sequences: which
@@ -162,14 +172,25 @@ type symH struct {
 	never  bool
 	parent int // kAddChild: parent handle, else -1
 	pooly  bool
+	looky  bool // ends itself when looked at / slow looks: never used as a parent
 }
 
 type sym struct {
 	hs  []symH
-	ext bool // extended alphabet
+	ext alpha // which alphabets are switched on
 }
 
-func symOf(cfg string, ext bool) sym {
+// alpha selects the operation alphabet: the classic one is always on.
+type alpha uint8
+
+const (
+	aClassic alpha = 0
+	aExt     alpha = 1 // never-ending, deadline, child, twice, pool-derived, Advance
+	aLook    alpha = 2 // contexts that end themselves while they are being looked at
+	aAll           = aExt | aLook
+)
+
+func symOf(cfg string, ext alpha) sym {
 	s := sym{ext: ext}
 	for i := 0; i < len(cfg); i++ {
 		k := cfg[i]
@@ -180,6 +201,8 @@ func symOf(cfg string, ext bool) sym {
 		switch {
 		case k == 'L' || k == 'D':
 			h.can = true
+		case isLookKind(k):
+			h.can, h.looky = true, true
 		case isNeverKind(k):
 			h.never = true
 		}
@@ -205,7 +228,7 @@ func (s sym) next() []op {
 	for h, x := range s.hs {
 		if x.can {
 			out = append(out, op{K: kCancelMember, H: h})
-			if !x.pooly {
+			if !x.pooly && !x.looky {
 				if lo < 0 {
 					lo = h
 				}
@@ -215,7 +238,7 @@ func (s sym) next() []op {
 	}
 	n := len(s.hs)
 	out = append(out, op{K: kAddLive, H: n}, op{K: kAddEnded, H: n})
-	if s.ext {
+	if s.ext&aExt != 0 {
 		out = append(out, op{K: kAddNever, H: n}, op{K: kAddDeadline, H: n})
 		if lo >= 0 {
 			out = append(out, op{K: kAddChild, H: n, P: lo})
@@ -240,8 +263,16 @@ func (s sym) next() []op {
 		}
 		out = append(out, op{K: kAddSelf, H: n}, op{K: kAddPoolChild, H: n})
 	}
+	if s.ext&aLook != 0 {
+		for k := 1; k <= 4; k++ {
+			out = append(out, op{K: kAddLook, H: n, P: k})
+		}
+		if s.ext&aExt != 0 {
+			out = append(out, op{K: kAddLook, H: n, P: 0})
+		}
+	}
 	out = append(out, op{K: kCancel}, op{K: kSize})
-	if s.ext {
+	if s.ext&aExt != 0 {
 		out = append(out, op{K: kAdvance})
 	}
 	return out
@@ -279,6 +310,8 @@ func (s sym) apply(o op) sym {
 		hs = append(hs, symH{kind: 'P', parent: -1, pooly: true})
 	case kAddPoolChild:
 		hs = append(hs, symH{kind: 'Q', can: true, parent: -1, pooly: true})
+	case kAddLook:
+		hs = append(hs, symH{kind: o.ctxKind(), can: true, looky: true, parent: -1})
 	}
 	return sym{hs: hs, ext: s.ext}
 }
@@ -295,7 +328,7 @@ func (s sym) nCan() int {
 
 // enumerate visits prefix and every extension of it up to maxLen operations,
 // each exactly once. The slice handed to visit is reused.
-func enumerate(cfg string, ext bool, prefix []op, maxLen int, visit func(seq []op)) {
+func enumerate(cfg string, ext alpha, prefix []op, maxLen int, visit func(seq []op)) {
 	s := symOf(cfg, ext)
 	for _, o := range prefix {
 		s = s.apply(o)
@@ -317,7 +350,7 @@ func enumerate(cfg string, ext bool, prefix []op, maxLen int, visit func(seq []o
 }
 
 // sequencesOfLen returns every sequence of exactly n operations.
-func sequencesOfLen(cfg string, ext bool, n int) [][]op {
+func sequencesOfLen(cfg string, ext alpha, n int) [][]op {
 	var out [][]op
 	enumerate(cfg, ext, nil, n, func(seq []op) {
 		if len(seq) == n {
@@ -381,9 +414,10 @@ const (
 	clsIgnored                  // offered after Done was observed or after Cancel returned
 	clsVoid                     // Add that returned after a concurrent Cancel returned
 	clsUnused                   // handle prepared but never offered
+	clsInitMaybe                // passed at creation, ended while NewPool was running: may or may not have been taken
 )
 
-var classNames = [...]string{"init-live", "init-ended", "pending", "protected", "unprotected", "ignored", "void", "unused"}
+var classNames = [...]string{"init-live", "init-ended", "pending", "protected", "unprotected", "ignored", "void", "unused", "init-ended-during-creation"}
 
 // neverCtx is a legal context that can never end (Done() == nil).
 type neverCtx struct{}
@@ -394,6 +428,33 @@ func (neverCtx) Err() error                  { return nil }
 func (neverCtx) Value(any) any               { return nil }
 
 type ctxKey struct{}
+
+// lookCtx is a legal context that ends at an odd moment: exactly when somebody
+// looks at it for the n-th time (Err or Done), before that look is answered
+// (n = 0: never by itself). With yield > 0 every look first yields the
+// processor a few times (a slow but legal implementation), which lets another
+// goroutine end contexts between two looks of the caller.
+type lookCtx struct {
+	inner context.Context
+	w     *world
+	h     *handle
+	n     int32
+	yield int
+	looks atomic.Int32
+}
+
+func (c *lookCtx) look() {
+	for i := 0; i < c.yield; i++ {
+		runtime.Gosched()
+	}
+	if k := c.looks.Add(1); c.n > 0 && k == c.n {
+		c.w.selfEnd(c.h)
+	}
+}
+func (c *lookCtx) Done() <-chan struct{}       { c.look(); return c.inner.Done() }
+func (c *lookCtx) Err() error                  { c.look(); return c.inner.Err() }
+func (c *lookCtx) Deadline() (time.Time, bool) { return c.inner.Deadline() }
+func (c *lookCtx) Value(k any) any             { return c.inner.Value(k) }
 
 type handle struct {
 	id       int
@@ -409,6 +470,7 @@ type handle struct {
 	isPool   bool    // the pool's own context
 	pooly    bool    // the pool itself or derived from it
 	never    bool
+	looky    bool
 	cls      class
 }
 
@@ -447,10 +509,11 @@ type world struct {
 	epoch          int64
 	lastAdd        string
 
-	doneSeen  bool
-	wasLive   bool // the pool was observed live at a quiescent point
-	placedAny bool
-	special   bool // a never-ending / deadline / derived / pool-derived context took part
+	doneSeen    bool
+	wasLive     bool // the pool was observed live at a quiescent point
+	placedAny   bool
+	special     bool // a never-ending / deadline / derived / pool-derived context took part
+	racedCreate bool // a member ended while NewPool was running
 
 	// hook side
 	armHook  string
@@ -487,7 +550,11 @@ func (w *world) dump() []string {
 
 func (w *world) handlesString() []string {
 	var out []string
-	for _, h := range w.hs {
+	for i, h := range w.hs {
+		if i >= 60 {
+			out = append(out, fmt.Sprintf("... %d more", len(w.hs)-i))
+			break
+		}
 		s := fmt.Sprintf("h%d kind=%c %s self-ended=%v", h.id, h.kind, classNames[h.cls], h.ended)
 		if h.parent != nil && !h.parent.isPool {
 			s += fmt.Sprintf(" child-of=h%d", h.parent.id)
@@ -650,6 +717,15 @@ func (w *world) newHandle(kind byte, ref *handle) *handle {
 			ref = ref.same
 		}
 		h.ctx, h.same, h.pooly, h.never = ref.ctx, ref, ref.pooly, ref.never
+	case '1', '2', '3', '4', 's':
+		inner, cancel := context.WithCancel(context.Background())
+		lc := &lookCtx{inner: inner, w: w, h: h}
+		if kind == 's' {
+			lc.yield = 3
+		} else {
+			lc.n = int32(kind - '0')
+		}
+		h.ctx, h.cancel, h.looky = lc, cancel, true
 	case 'P':
 		h.ctx, h.isPool, h.pooly = w.p, true, true
 	case 'Q':
@@ -669,6 +745,26 @@ func (w *world) newHandle(kind byte, ref *handle) *handle {
 		count("ctxkind."+string(kind), 1)
 	}
 	return h
+}
+
+// selfEnd: a lookCtx ends itself (called from inside kit, on whatever goroutine
+// is looking at the context; the harness never holds w.mu while it calls kit).
+func (w *world) selfEnd(h *handle) {
+	w.mu.Lock()
+	if !h.ended {
+		h.ended = true // logged BEFORE the context really ends
+		w.logLocked("ended-on-look", h.id, 0)
+		switch {
+		case w.pp.Load() == nil:
+			count("look.fired_during_newpool", 1)
+		case h.cls == clsPending:
+			count("look.fired_during_add", 1)
+		default:
+			count("look.fired_later", 1)
+		}
+	}
+	w.mu.Unlock()
+	h.cancel()
 }
 
 func (w *world) cancelMember(h *handle) {
@@ -776,6 +872,8 @@ func addKindName(k byte) string {
 		return "addself"
 	case 'Q':
 		return "addpoolchild"
+	case '1', '2', '3', '4', 's':
+		return "addlook"
 	}
 	return "addnever"
 }
@@ -1051,11 +1149,21 @@ func (w *world) execAtExit(o op) bool {
 }
 
 type runOpts struct {
-	hook     string
-	k, m     int
-	yield    int
-	lockstep bool
-	phases   [][]op // racing mode
+	hook      string
+	k, m      int
+	yield     int
+	lockstep  bool
+	phases    [][]op // racing mode
+	storm     *storm // members are cancelled by other goroutines while NewPool is running
+	stormDesc string
+}
+
+// storm: canceller goroutines are parked on a barrier; the harness opens the
+// barrier and calls NewPool at once. cancel[g] lists the initial members
+// goroutine g cancels, yields[g] how often it yields first.
+type storm struct {
+	cancel [][]int
+	yields []int
 }
 
 type outcome struct {
@@ -1069,6 +1177,12 @@ func runHistory(t *testing.T, idx int, mode string, cfg string, seq []op, o runO
 	w := &world{idx: idx, mode: mode, cfg: cfg, seq: append([]op{}, seq...), armHook: o.hook, armN: o.k, m: o.m, yield: o.yield, lastAdd: "none"}
 	if o.hook != "" {
 		w.desc = fmt.Sprintf("park at %s hit %d, %d operation(s) placed there", o.hook, o.k, o.m)
+	}
+	if o.storm != nil {
+		w.desc = "storm: canceller goroutines released together with the call of NewPool; " + o.stormDesc
+		if len(cfg) > 64 {
+			w.cfg = cfg[:64] + "..."
+		}
 	}
 	if o.phases != nil {
 		var ps []string
@@ -1115,9 +1229,46 @@ func runHistory(t *testing.T, idx int, mode string, cfg string, seq []op, o runO
 		w.mu.Lock()
 		w.logLocked("new-pool live/total", hi, len(cfg))
 		w.mu.Unlock()
+		var stormWG sync.WaitGroup
+		if o.storm != nil {
+			start := make(chan struct{})
+			for g := range o.storm.cancel {
+				stormWG.Add(1)
+				go func() {
+					defer stormWG.Done()
+					<-start
+					for i := 0; i < o.storm.yields[g]; i++ {
+						runtime.Gosched()
+					}
+					for _, hx := range o.storm.cancel[g] {
+						w.cancelMember(w.hs[hx])
+					}
+				}()
+			}
+			synctest.Wait() // every canceller is parked on the barrier
+			close(start)
+		}
 		w.p = kitctx.NewPool(ctxs...)
 		w.pp.Store(w.p)
 		w.poolH.ctx = w.p
+		// A context that ended (by the harness's log) before NewPool returned - it ended itself
+		// while being looked at, or another goroutine cancelled it meanwhile - may or may not have
+		// been taken as a member: it is not protected (it has ended anyway) and only the upper
+		// bound of Size counts it. Whoever was still live at the return was live all along.
+		w.mu.Lock()
+		for _, h := range w.hs[:len(cfg)] {
+			if h.cls == clsInitLive && w.endedLocked(h) {
+				h.cls = clsInitMaybe
+				if h.same == nil {
+					w.lo--
+				}
+				w.logLocked("ended-during-newpool", h.id, 0)
+				count("init.member_ended_during_newpool", 1)
+				w.racedCreate = true
+			}
+		}
+		w.mu.Unlock()
+		stormWG.Wait()
 		w.wg.Add(1)
 		go func() {
 			defer w.wg.Done()
@@ -1255,6 +1406,13 @@ func (w *world) runPhases(phases [][]op) string {
 		wg.Wait()
 		count("racing.phases", 1)
 		count("racing.ops", len(ph))
+		for _, a := range ph {
+			for _, c := range ph {
+				if a.isAdd() && c.K == kCancelMember && c.H == a.H {
+					count("racing.add_races_end_of_its_argument", 1)
+				}
+			}
+		}
 		synctest.Wait()
 		w.quiescent("phase")
 	}
@@ -1403,7 +1561,7 @@ func finish(w *world, res mon.BubbleResult, inconc string) outcome {
 		rec.Inconclusive(w.idx, inconc, map[string]any{"initial": cfgString(w.cfg), "ops": seqString(w.seq), "params": w.desc})
 		return outcome{inconc: inconc}
 	}
-	out := outcome{nontrivial: w.wasLive || w.placedAny, placed: w.placedAny, special: w.special}
+	out := outcome{nontrivial: w.wasLive || w.placedAny || w.racedCreate, placed: w.placedAny, special: w.special}
 	if !w.viol && out.nontrivial && sampled[w.mode] < 1 && (w.placedAny || (w.mode != "hook" && w.mode != "randhook" && w.mode != "exthook")) && len(w.seq) >= 3 && (w.special || (w.mode != "ext" && w.mode != "exthook")) && rec.WantSample() {
 		sampled[w.mode]++ // one written-out history per mode and child
 		rec.Sample(map[string]any{"mode": w.mode, "initial": cfgString(w.cfg), "ops": seqString(w.seq), "params": w.desc, "events": w.dump()})
@@ -1418,7 +1576,7 @@ var sampled = map[string]int{}
 type plan struct {
 	mode   string // lockstep | hook | ext | exthook | burst | randhook | racing | slice | randslice (slice_test.go)
 	cfg    string
-	ext    bool // extended alphabet
+	ext    alpha // alphabet
 	prefix []op
 	short  bool // visit only the sequences shorter than the group prefix length
 	maxLen int
@@ -1431,7 +1589,7 @@ type plan struct {
 }
 
 func (p plan) enumerated() bool {
-	return p.mode == "lockstep" || p.mode == "hook" || p.mode == "ext" || p.mode == "exthook"
+	return p.mode == "lockstep" || p.mode == "hook" || p.mode == "ext" || p.mode == "exthook" || p.mode == "look"
 }
 
 func (p plan) String() string {
@@ -1454,7 +1612,7 @@ var hookPoints = []string{"pool.waited", "pool.exit", "pool.unlocked"}
 const (
 	classicKinds = "Lx"
 	extKinds     = "LxBUD" // initial kinds of the extended enumerations (V, W and = come with the seeded modes and through Add)
-	seededKinds  = "LLLLLLxxBVWUDD="
+	seededKinds  = "LLLLLLLxxBVWUDD=123s"
 )
 
 type space struct {
@@ -1479,7 +1637,7 @@ func theSpace() space {
 		nBurst: 2000, nRandHook: 4000, nRacin: 5000}
 }
 
-func groups(mode string, cfgs []string, ext bool, L, G int, hook string, k, m int) []plan {
+func groups(mode string, cfgs []string, ext alpha, L, G int, hook string, k, m int) []plan {
 	var ps []plan
 	for _, cfg := range cfgs {
 		ps = append(ps, plan{mode: mode, cfg: cfg, ext: ext, short: true, maxLen: G - 1, hook: hook, k: k, m: m})
@@ -1502,9 +1660,9 @@ func exactly(cfgs []string, n int) []string {
 
 func plans() []plan {
 	sp := theSpace()
-	ps := groups("lockstep", allCfgs(sp.seqN, classicKinds), false, sp.seqL, sp.seqG, "", 0, 0)
+	ps := groups("lockstep", allCfgs(sp.seqN, classicKinds), aClassic, sp.seqL, sp.seqG, "", 0, 0)
 	if sp.seqN2 > 0 {
-		ps = append(ps, groups("lockstep", exactly(allCfgs(sp.seqN2, classicKinds), sp.seqN2), false, sp.seqL2, sp.seqG, "", 0, 0)...)
+		ps = append(ps, groups("lockstep", exactly(allCfgs(sp.seqN2, classicKinds), sp.seqN2), aClassic, sp.seqL2, sp.seqG, "", 0, 0)...)
 	}
 	for _, h := range hookPoints {
 		for k := 1; k <= sp.hookK; k++ {
@@ -1512,14 +1670,14 @@ func plans() []plan {
 				break // the watcher leaves its loop exactly once
 			}
 			for m := 1; m <= 2; m++ {
-				ps = append(ps, groups("hook", allCfgs(sp.hookN, classicKinds), false, sp.hookL, sp.hookG, h, k, m)...)
+				ps = append(ps, groups("hook", allCfgs(sp.hookN, classicKinds), aClassic, sp.hookL, sp.hookG, h, k, m)...)
 			}
 		}
 	}
-	ps = append(ps, groups("ext", allCfgs(sp.extN, extKinds), true, sp.extL, sp.extG, "", 0, 0)...)
+	ps = append(ps, groups("ext", allCfgs(sp.extN, extKinds), aExt, sp.extL, sp.extG, "", 0, 0)...)
 	if sp.extL2 > sp.extL {
 		// the longer sequences only (those of length <= extL were enumerated just above)
-		for _, pl := range groups("ext", allCfgs(sp.extN2, extKinds), true, sp.extL2, 2, "", 0, 0) {
+		for _, pl := range groups("ext", allCfgs(sp.extN2, extKinds), aExt, sp.extL2, 2, "", 0, 0) {
 			if !pl.short {
 				pl.minLen = sp.extL + 1
 				ps = append(ps, pl)
@@ -1528,10 +1686,28 @@ func plans() []plan {
 	}
 	for _, h := range hookPoints {
 		for m := 1; m <= 2; m++ {
-			ps = append(ps, groups("exthook", allCfgs(sp.exthookN, extKinds), true, sp.exthookL, 1, h, 1, m)...)
+			ps = append(ps, groups("exthook", allCfgs(sp.exthookN, extKinds), aExt, sp.exthookL, 1, h, 1, m)...)
 		}
 	}
 	ps = append(ps, slicePlans()...)
+	// look: a context that ends itself on its k-th look, as an initial member in every position and as an Add argument
+	lookL := mon.Pick(2, 3)
+	var look12, look3 []string
+	for _, c := range allCfgs(3, "Lx1234") {
+		if !strings.ContainsAny(c, "1234") {
+			continue
+		}
+		if len(c) <= 2 {
+			look12 = append(look12, c)
+		} else {
+			look3 = append(look3, c)
+		}
+	}
+	ps = append(ps, groups("look", look12, aLook, lookL, 1, "", 0, 0)...)
+	ps = append(ps, groups("look", look3, aLook, lookL-1, 1, "", 0, 0)...)
+	for i := 0; i < mon.Pick(3000, 60000); i++ {
+		ps = append(ps, plan{mode: "storm"})
+	}
 	for i := 0; i < sp.nBurst; i++ {
 		ps = append(ps, plan{mode: "burst"})
 	}
@@ -1555,7 +1731,7 @@ func randCfg(rng *mon.RNG, maxN int) string {
 // weights of the operation kinds in the seeded modes (cancellations are
 // favoured so that pools really end).
 var opWeight = [...]int{kCancelMember: 36, kAddLive: 16, kAddEnded: 6, kCancel: 4, kSize: 12,
-	kAddNever: 6, kAddDeadline: 4, kAddChild: 5, kAddDup: 3, kAddSelf: 1, kAddPoolChild: 2, kAdvance: 5}
+	kAddNever: 6, kAddDeadline: 4, kAddChild: 5, kAddDup: 3, kAddSelf: 1, kAddPoolChild: 2, kAdvance: 5, kAddLook: 5}
 
 // pickOp draws one of the available operations: first the kind by weight, then
 // uniformly among the operations of that kind. skip filters operations out.
@@ -1597,7 +1773,7 @@ func pickOp(rng *mon.RNG, nx []op, skip func(op) bool) (op, bool) {
 }
 
 func randSeq(rng *mon.RNG, cfg string, n int) []op {
-	s := symOf(cfg, true)
+	s := symOf(cfg, aAll)
 	var seq []op
 	for len(seq) < n {
 		o, ok := pickOp(rng, s.next(), nil)
@@ -1611,7 +1787,7 @@ func randSeq(rng *mon.RNG, cfg string, n int) []op {
 }
 
 func randPhases(rng *mon.RNG, cfg string) [][]op {
-	s := symOf(cfg, true)
+	s := symOf(cfg, aAll)
 	var phases [][]op
 	np := rng.Range(2, 6)
 	for p := 0; p < np; p++ {
@@ -1625,6 +1801,12 @@ func randPhases(rng *mon.RNG, cfg string) [][]op {
 			}
 			ph = append(ph, o)
 			s = s.apply(o)
+			if (o.K == kAddLive || o.K == kAddLook || o.K == kAddDeadline) && rng.Chance(1, 4) {
+				// the argument of this Add is ended by another goroutine of the same phase
+				c := op{K: kCancelMember, H: o.H}
+				ph = append(ph, c)
+				s = s.apply(c)
+			}
 		}
 		nx := s0.next()
 		used := map[int]bool{}
@@ -1693,6 +1875,7 @@ func TestCheck(t *testing.T) {
 		"(hook, exhaustive for its parameters) pools of 0..%d initial contexts x sequences of 0..%d operations x the watcher parked at the k-th hit of pool.waited (k=1..%d) or at pool.exit / pool.unlocked (reached once) with the next 1 or 2 operations of the sequence issued exactly there; "+
 		"(ext, enumerated) pools of 0..%d initial contexts of kind {live, ended, Background, custom nil-Done type, deadline} x every sequence of 0..%d operations%s over the classic alphabet plus {Add never-ending ctx (Background / WithValue / WithoutCancel(cancelled parent) / custom, flavour = handle number mod 4), Add deadline ctx, Add child of the lowest/highest cancellable member, Add again the context of the lowest/highest live member, Add the pool itself, Add a child of the pool, let 15ms of virtual time pass}; (exthook) the same alphabet, 0..%d initial contexts x 0..%d operations x parked at the first hit of each hook point with 1 or 2 operations placed; "+
 		"(burst) %d seeded sequences of 4..14 operations issued back to back with no quiescence; (randhook) %d seeded lock-step sequences of 6..16 operations on up to 4 initial contexts with a seeded park (hit 1..5, 1..3 placed operations); (racing) %d seeded histories of 2..6 phases whose 1..5 operations are released together from separate goroutines, biased to Add racing the cancellation of the last live member; the seeded modes use the extended alphabet and all initial kinds (also the same context passed twice). "+
+		"(look, enumerated) initial lists of 1..3 contexts over {live, ended, a context that ends itself on its 1st/2nd/3rd/4th Err()/Done() look} with at least one such context, in every position, x every sequence of 0..2 (thorough 0..3; one less for 3 initial contexts) operations over the classic alphabet plus Add of such a context (k=1..4); (storm, seeded) 1..4 members (one case in 40: 2000 members), some of them with slow Err()/Done(), are cancelled by 1..3 other goroutines released on a barrier together with the call of NewPool, on 4 Ps, then 0..3 seeded operations; a context that had ended by the harness's log when NewPool returned may or may not have been taken (not protected, only the upper bound of Size counts it), one still live then was live all along; racing phases also end the argument of an Add from another goroutine while that Add runs. "+
 		"(slice, enumerated; slice_test.go) the initial contexts are handed over as a caller-owned slice with spare capacity, NewPool(s...): initial slices of 0..3 live/ended contexts (ended ones in front too) x spare capacity 0..2 (thorough 0,1,2,4) x every sequence of 0..3 (thorough 0..4) operations over {cancel(h), Add live/ended to pool 1 or 2, build a second pool from the same slice, the caller overwrites its first/last element, reverses its slice, appends to it, Cancel pool 1 or 2}, quiescent between operations; each pool is judged against its own membership (Done() closed iff it was cancelled or all ITS members ended; Size() = its member count) and the caller's slice must hold, over its whole capacity, exactly what the caller put there after every NewPool/Add; (randslice) seeded sequences of 4..10 such operations on slices of 0..4 contexts (also Background) with spare capacity 0..4. "+
 		"Tuples are enumerated without repetition, so distinct = evaluated for the enumerated modes; seeded cases are distinct by their operation list. Non-trivial = the pool was observed live at a quiescent point (it had a live member) or operations were placed at a hook; a hook case whose hook is not reached before the tail is counted trivial.",
 		sp.seqN, sp.seqL, also, sp.hookN, sp.hookL, sp.hookK, sp.extN, sp.extL, alsoExt, sp.exthookN, sp.exthookL, sp.nBurst, sp.nRandHook, sp.nRacin))
@@ -1704,6 +1887,7 @@ func TestCheck(t *testing.T) {
 		"add.protected", "add.unprotected", "add.offered_after_done", "add.offered_after_cancel",
 		"add.protected.kind_B", "add.protected.kind_V", "add.protected.kind_W", "add.protected.kind_U", "add.protected.kind_D", "add.protected.kind_C", "add.protected.kind_=",
 		"ctxkind.P", "ctxkind.Q", "deadline.expired_in_virtual_time", "never.pool_live_on_never_ending_member_only", "tail.pool_live_until_cancel", "tail.pool_done_before_cancel", "tail.hour_passed_with_pool_live",
+		"look.fired_during_newpool", "look.fired_during_add", "init.member_ended_during_newpool", "storm.big", "racing.add_races_end_of_its_argument",
 		"slice.unchanged_checks", "slice.second_pool_from_same_slice", "slice.caller_overwrite", "slice.caller_reverse", "slice.caller_append_into_spare_capacity", "slice.ended_in_front_of_live", "slice.add_while_slice_has_spare_capacity", "slice.pool_checks",
 		"size.checked", "size.zero_after_cancel", "quiescent.checks", "quiescent.live", "racing.phases", "watcher.exited_at_end",
 	})
@@ -1783,13 +1967,13 @@ func runPlan(t *testing.T, idx int, pl plan) {
 	case "slice", "randslice":
 		runSlicePlan(t, idx, pl)
 		return
-	case "burst", "racing":
+	case "burst", "racing", "storm":
 		setProcs(4)
 	default:
 		setProcs(1)
 	}
 	switch pl.mode {
-	case "lockstep", "hook", "ext", "exthook":
+	case "lockstep", "hook", "ext", "exthook", "look":
 		hooked := pl.hook != ""
 		rec.Begin(idx, pl.String())
 		var non, triv int64
@@ -1834,6 +2018,74 @@ func runPlan(t *testing.T, idx int, pl plan) {
 		if out.inconc == "" {
 			count("histories.burst", 1)
 			rec.Case(idx, "burst"+cfgString(cfg)+seqString(seq), out.nontrivial)
+		}
+	case "storm":
+		rng := mon.NewRNG("c20-storm", idx)
+		big := rng.Chance(1, 40)
+		m := rng.Range(1, 4)
+		if big {
+			m = 2000
+		}
+		b := make([]byte, m)
+		for i := range b {
+			switch r := rng.Intn(100); {
+			case big && r < 99:
+				b[i] = 'L'
+			case big:
+				b[i] = 's'
+			case r < 65:
+				b[i] = 'L'
+			case r < 90:
+				b[i] = 's'
+			default:
+				b[i] = 'x'
+			}
+		}
+		cfg := string(b)
+		g := rng.Range(1, 3)
+		st := &storm{cancel: make([][]int, g), yields: make([]int, g)}
+		for j := range st.yields {
+			st.yields[j] = rng.Intn(mon.Pick(8, 8))
+			if big {
+				st.yields[j] = rng.Intn(40)
+			}
+		}
+		strided := rng.Bool()
+		sy := symOf(cfg, aAll)
+		for i := range b {
+			if b[i] == 'x' || (!big && !rng.Chance(3, 4)) {
+				continue
+			}
+			j := i % g
+			if !strided {
+				j = i * g / m
+			}
+			st.cancel[j] = append(st.cancel[j], i)
+			sy = sy.apply(op{K: kCancelMember, H: i})
+		}
+		var seq []op
+		if !big {
+			for n := rng.Range(0, 3); len(seq) < n; {
+				o, ok := pickOp(rng, sy.next(), nil)
+				if !ok {
+					break
+				}
+				seq = append(seq, o)
+				sy = sy.apply(o)
+			}
+		}
+		desc := fmt.Sprintf("members=%d cancellers=%d strided=%v yields=%v", m, g, strided, st.yields)
+		if !big {
+			desc += fmt.Sprintf(" initial=%s cancel=%v then ops=%s", cfgString(cfg), st.cancel, seqString(seq))
+		}
+		rec.Begin(idx, "storm "+desc)
+		out := runHistory(t, idx, "storm", cfg, seq, runOpts{lockstep: true, storm: st, stormDesc: desc})
+		if out.inconc == "" {
+			count("histories.storm", 1)
+			if big {
+				count("storm.big", 1)
+			}
+			rec.Case(idx, "storm"+desc, out.nontrivial)
 		}
 	case "randhook":
 		rng := mon.NewRNG("c20-randhook", idx)
